@@ -410,6 +410,45 @@ theorem shared_wildcard_copy_order_independent (ag : List String) (acts : List A
         · exact h2 w hw
         · rw [hw, h1]
 
+/-- **Pure constructors ⇒ order independence of everything computed from a shared component.**  If no
+    constructor changes the shared component (the hypothesis the purity monitor of the harness checks on the real
+    objects), then after ANY sequence of constructors, in any order, the component is what its declaration says
+    and every snapshot taken from it is that same value. -/
+theorem pure_ctors_order_independent (ag : List String) (cs : List Ctor) (h : ∀ c ∈ cs, PureCtor c) :
+    (cs.foldl runCtor ⟨ag, []⟩).ag = ag ∧ ∀ w ∈ (cs.foldl runCtor ⟨ag, []⟩).snaps, w = ag := by
+  suffices g : ∀ (s : Shared), s.ag = ag → (∀ w ∈ s.snaps, w = ag) →
+      (cs.foldl runCtor s).ag = ag ∧ ∀ w ∈ (cs.foldl runCtor s).snaps, w = ag from
+    g ⟨ag, []⟩ rfl (by intro w hw; cases hw)
+  induction cs with
+  | nil => intro s h1 h2; exact ⟨h1, h2⟩
+  | cons c cs ih =>
+    intro s h1 h2
+    rw [List.foldl_cons]
+    have hc : PureCtor c := h c List.mem_cons_self
+    apply ih (fun c' hc' => h c' (List.mem_cons_of_mem _ hc'))
+    · cases hr : c.read <;> simp [runCtor, hr, hc _, h1]
+    · intro w hw
+      cases hr : c.read with
+      | false => simp only [runCtor, hr] at hw; exact h2 w hw
+      | true =>
+        simp only [runCtor, hr, if_true, List.mem_append, List.mem_singleton] at hw
+        rcases hw with hw | hw
+        · exact h2 w hw
+        · rw [hw, h1]
+
+/-- **Seed C09-3, the witness** (replayed on the real code: wildcard-pair family, `##other` × `##local urn:x`):
+    with the aliased intersection the second user's wildcard depends on the order. -/
+theorem aliased_intersection_counterexample :
+    ([aliasedInter "urn:t", reader].foldl runCtor ⟨["", "urn:x"], []⟩).snaps = [["urn:x"]] ∧
+    ([reader, aliasedInter "urn:t"].foldl runCtor ⟨["", "urn:x"], []⟩).snaps = [["", "urn:x"]] ∧
+    ¬ PureCtor (aliasedInter "urn:t") := by
+  refine ⟨by decide, by decide, ?_⟩
+  intro h
+  have := h [""]
+  simp [aliasedInter] at this
+
+example : PureCtor reader := fun _ => rfl
+
 /-- **C09-F2, the witness**: the per-document test changes its answer when the declaration moves to an
     included document (document 1) while the wildcard stays in document 0 … -/
 theorem defined_per_document_counterexample :
